@@ -127,3 +127,25 @@ Definition dec_plane_w (i width subsamp : Z) : Z :=
   dec_pw (dec_pw0 width (dec_hsamp0 subsamp)) (if i =? 0 then dec_hsamp0 subsamp else 1) (dec_hsamp0 subsamp).
 Definition dec_plane_h (i height subsamp : Z) : Z :=
   dec_ph (dec_ph0 height (dec_vsamp0 subsamp)) (if i =? 0 then dec_vsamp0 subsamp else 1) (dec_vsamp0 subsamp).
+
+(* ---- getSubsamp() for a 3-component YCbCr JPEG: the TJSAMP level that the sampling factors
+        (Y yh x yv, Cb bh x bv, Cr rh x rv) denote, or TJSAMP_UNKNOWN.  Three rules per level i
+        (standard form, non-standard 4:2:2 / 4:4:0 form, non-standard 4:4:4 form), first level wins. ---- *)
+Definition gs_level_matches (i yh yv bh bv rh rv : Z) : bool :=
+  (gs_std yh yv i && (bh =? 1) && (bv =? 1) && (rh =? 1) && (rv =? 1)) ||
+  (gs_ns yh yv i && (bh =? gs_ns_href i) && (bv =? gs_ns_vref i) && (rh =? gs_ns_href i) && (rv =? gs_ns_vref i)) ||
+  (gs_444 yh yv i && (bh =? yh) && (bv =? yv) && (rh =? yh) && (rv =? yv)).
+
+Fixpoint gs_loop (n : nat) (i yh yv bh bv rh rv : Z) : Z :=
+  match n with
+  | O => TJSAMP_UNKNOWN
+  | S n' =>
+    if negb (i =? TJSAMP_GRAY) && gs_level_matches i yh yv bh bv rh rv then i
+    else gs_loop n' (i + 1) yh yv bh bv rh rv
+  end.
+
+Definition getSubsamp3 (yh yv bh bv rh rv : Z) : Z := gs_loop (Z.to_nat TJ_NUMSAMP) 0 yh yv bh bv rh rv.
+
+(* libjpeg's size of a component in samples: jdiv_round_up(image_width * h_samp_factor, max_h_samp_factor)
+   (jdmaster.c downsampled_width; written by hand, not translated) *)
+Definition downsampled_dim (dim samp max_samp : Z) : Z := (dim * samp + max_samp - 1) / max_samp.
